@@ -197,7 +197,7 @@ def violations(d, xs, tol=1e-5):
         if np.min(v) < 0.25 - tol:
             out.append(('posrow', float(0.25 - np.min(v))))
     for j, t in enumerate(d['vtype'] if len(d['vtype']) > 1 else d['vtype'] * d['n']):
-        if t in 'BI' and abs(xs[j] - round(xs[j])) > 1e-6:
+        if t in 'BI' and abs(xs[j] - round(xs[j])) > 2e-5:      # MILP solvers' integrality tolerance (Gurobi IntFeasTol = 1e-5)
             out.append(('integrality x[%d]' % j, float(abs(xs[j] - round(xs[j])))))
         if t == 'B' and not (-1e-6 <= xs[j] <= 1 + 1e-6):
             out.append(('binary range x[%d]' % j, float(xs[j])))
